@@ -3,6 +3,7 @@ Each is an assumption about code outside /repo; see DESIGN.md 2.5."""
 import z3
 from .values import *  # noqa
 from .core import *  # noqa
+Z_INT, Z_BOOL = z3.IntSort(), z3.BoolSort()
 from .builtins_model import EXTERN_CALLS, EXTERN_ATTRS, EXTERN_METHODS, EXTERN_GETATTR, EXTERN_SETATTR, \
     extern_call, extern_method, USED_MODELS
 
@@ -293,6 +294,61 @@ def _dq_set(I, recv, cells, lo, hi, head_none):
         return _dq_set(I, o.forward, cells, lo, hi, head_none)
     for f, v in zip(_DQF, vals):
         o.fields[f] = v
+
+
+def settings_update_summary(I, recv, ro, other, om, node):
+    """Settings.update(other) for a dictionary of ANY size: closed form of the stdlib loop
+    `for key in other: self[key] = other[key]` over the contract of the real Settings.__setitem__ (contracts/
+    c_settings2.py: raises InvalidSettingsValueError iff the value is invalid for the key, else appends the value to
+    the key's queue, creating the queue [None, value] for a new key).  The per-key effects touch distinct keys, so the
+    loop's result does not depend on the iteration order when every value is valid; when some value is invalid the
+    keys processed before it are unknown (arbitrary subset applied).  ASSUMED summary (listed in the evidence)."""
+    import ast as _ast
+    USED_MODELS.add('summary: Settings.update(dict of any size) = per-key effect of Settings.__setitem__ (its verified contract), order-independent closed form')
+    m = I.heap.get(ro.fields['_settings'])
+    k = z3.Int('upd!k')
+    odom, oval = om.dom, om.arrays['']
+    # validity of (k, other[k]) by the specification twin of _validate_setting
+    fr = Frame(None, {'kk': k, 'vv': z3.Select(oval, k)}, I.frames[-1].module)
+    I.frames.append(fr)
+    try:
+        bad_k = zbool(I.truth(I.spec_eval(_ast.parse('spec_valid_setting(kk, vv) != 0', mode='eval').body)))
+        code_k = zint(I.int_of(I.spec_eval(_ast.parse('spec_valid_setting(kk, vv)', mode='eval').body)))
+    finally:
+        I.frames.pop()
+    any_bad = z3.Exists([k], z3.And(z3.Select(odom, k), bad_k))
+    cells, lo, hi, hn = (m.arrays[f] for f in _DQF)
+    dom = m.dom
+    inn, was = z3.Select(odom, k), z3.Select(dom, k)
+    app_cells = z3.If(was, z3.Store(z3.Select(cells, k), z3.Select(hi, k), z3.Select(oval, k)),
+                      z3.Store(z3.Select(cells, k), 1, z3.Select(oval, k)))
+    if I.branch(any_bad, 'settings-update-invalid-value'):
+        # some value is invalid: an arbitrary subset of the (valid) keys was applied before the raise
+        I.counter += 1
+        done = z3.Array('upd_done!%d' % I.counter, Z_INT, Z_BOOL)
+        appl = z3.And(inn, z3.Select(done, k), z3.Not(bad_k))
+        kbad = I.fresh('upd_bad_key', 'int')
+        I.assume(z3.And(z3.Select(odom, kbad), z3.substitute(bad_k, (k, kbad)), z3.Not(z3.Select(done, kbad))))
+        exc_code = z3.substitute(code_k, (k, kbad))
+    else:
+        appl = inn
+        exc_code = None
+    m.dom = z3.Lambda([k], z3.Or(was, appl))
+    m.arrays['cells'] = z3.Lambda([k], z3.If(appl, app_cells, z3.Select(cells, k)))
+    m.arrays['lo'] = z3.Lambda([k], z3.If(z3.And(appl, z3.Not(was)), 0, z3.Select(lo, k)))
+    m.arrays['hi'] = z3.Lambda([k], z3.If(appl, z3.If(was, z3.Select(hi, k) + 1, 2), z3.Select(hi, k)))
+    m.arrays['head_none'] = z3.Lambda([k], z3.If(z3.And(appl, z3.Not(was)), z3.BoolVal(True), z3.Select(hn, k)))
+    if m.size is not None:
+        old_size = m.size
+        m.size = I.fresh('settings_size_after_update', 'int')
+        I.assume(m.size >= zint(old_size))
+        if om.size is not None:
+            I.assume(m.size <= zint(old_size) + zint(om.size))
+    if exc_code is not None:
+        exc = I.make_exception('InvalidSettingsValueError', node)
+        I.heap.get(exc).fields['error_code'] = exc_code
+        raise PyRaise(exc, I.origin(node))
+    return None
 
 
 def dq_len(lo, hi):
